@@ -548,8 +548,12 @@ def dirs_fn(
     if long:
         o = dirstack
     else:
-        d = os.path.expanduser("~")
-        o = [i.replace(d, "~") for i in dirstack]
+        d = os.path.expanduser("~").rstrip(os.sep)
+        # only a leading home directory is abbreviated, and only whole components
+        o = [
+            "~" + i[len(d) :] if d and (i == d or i.startswith(d + os.sep)) else i
+            for i in dirstack
+        ]
 
     if verbose:
         out = ""
